@@ -75,10 +75,19 @@ def _tag(mod, path):
 
 
 def set_parents(root):
+    """parent links, and `pos`: the node's rank in source order of the (possibly inlined) tree - line numbers of inlined statements are
+    those of the helper they came from, so only `pos` says what precedes what"""
     for n in ast.walk(root):
         for ch in ast.iter_child_nodes(n):
             ch.parent = n
     root.parent = None
+    k = 0
+    stack = [root]
+    while stack:
+        n = stack.pop()
+        n.pos = k
+        k += 1
+        stack.extend(reversed(list(ast.iter_child_nodes(n))))
     return root
 
 
